@@ -97,6 +97,7 @@ def tree_hash():
                         with open(p, "rb") as fh:
                             h.update(fh.read())
         h.update(os.environ.get("PYVC_Z3_MS", "").encode())
+        h.update(os.environ.get("PYVC_BOTH", "").encode())
         _TREE_HASH = h.hexdigest()[:24]
     return _TREE_HASH
 
